@@ -213,7 +213,9 @@ func checkC11(c UpdCase) Outcome {
 		out.Labels = append(out.Labels, "target-does-not-compile")
 		return out
 	}
-	if c.Twin != "" {
+	if c.Twin != "" && strings.HasSuffix(c.Twin, ".conf") {
+		// two rules files (*.conf) for the prefix: ambiguous. A backup or editor copy next to the rules file
+		// (`.conf.orig`, `.conf~`, no extension) is not a rules file: the update goes on as usual and leaves it alone.
 		if up.Exit == 0 || len(diff) > 0 {
 			out.Violation = fmt.Sprintf("two files below rules/ match the rule's prefix (%s, %s) but update exits %d and changed %v", c.Rules.Name, c.Twin, up.Exit, diff)
 			return out
